@@ -722,10 +722,18 @@ def cli_rule(ctx, rid):
     # kwargs keys accepted by the enumerator
     core = prog.need_func("xyzpy.gen.combo_runner.combo_runner_core")
     keys = set()
+    splats = [k.value.id for k in c.keywords if k.arg is None and isinstance(k.value, ast.Name)]
+    if [k for k in c.keywords if k.arg is None and not isinstance(k.value, ast.Name)]:
+        raise AnalysisError("idiom changed: grow_missing(**<expression>) in the CLI")
     for x in walk_shallow(main.node):
-        if isinstance(x, ast.Assign) and norm(x.targets[0]) == "grow_kwargs" and isinstance(x.value, ast.Dict):
-            keys |= {k.value for k in x.value.keys if isinstance(k, ast.Constant)}
-        if isinstance(x, ast.Assign) and isinstance(x.targets[0], ast.Subscript) and norm(x.targets[0].value) == "grow_kwargs" and isinstance(x.targets[0].slice, ast.Constant):
+        if isinstance(x, ast.Assign) and norm(x.targets[0]) in splats:
+            from .shared import dict_literal
+            dl = dict_literal(x.value)
+            if isinstance(dl, ast.Dict):
+                keys |= {k.value for k in dl.keys if isinstance(k, ast.Constant)}
+            else:
+                raise AnalysisError("idiom changed: the CLI's grow keyword mapping is `%s`" % norm(x.value)[:60])
+        if isinstance(x, ast.Assign) and isinstance(x.targets[0], ast.Subscript) and norm(x.targets[0].value) in splats and isinstance(x.targets[0].slice, ast.Constant):
             keys.add(x.targets[0].slice.value)
     keys |= {k.arg for k in c.keywords if k.arg is not None}          # keywords written at the call itself
     gmf = prog.need_cls(CROP + ".Crop").methods.get("grow_missing")
